@@ -55,7 +55,7 @@ CLAIMED = {
         ref='DESIGN.md 4 (C15)'),
     'C03': dict(
         text='Runtime half: for a type T visiting three dependencies (plus a tail with repeats / itself) whose names (distinct letters), '
-             'placements (menu incl. same file, ./ and .. spellings, sub-directories, plus 2-3 symbolic path bytes for one of them), '
+             'placements (menu incl. same file, ./ and .. spellings, sub-directories, plus 2 symbolic path bytes for one of them), '
              'exportability and export directory are symbolic, with import-esm off and on, the text produced by the real '
              'export_to_string/generate_imports/TS::dependencies/Dependency::from_ty/import_path (MIR) is parsed back and on every path: '
              'exactly the visited exportable dependencies living in another file are imported, each once, from a specifier that resolves to '
